@@ -126,10 +126,12 @@ Example C11_example : exists s, run2 (init2 cfg_resumed) ex_rotation = Some s /\
   map (fun w => (w_id w, w_salt w)) (wire (base s)) = [(56, 777); (52, 777); (48, 777); (44, 0); (40, 0)] /\
   store (base s) = [777] /\ retries (elog (base s)) = [40].
 Proof. eexists. split; [vm_compute; reflexivity|repeat split; reflexivity]. Qed.
+Print Assumptions C11_example.
 
 Example C11_example_fresh : exists s, run2 (init2 cfg_fresh) ex_fresh = Some s /\
   rets (base s) = [(0%nat, 1%nat, 48, RetVal KBool 1)] /\ store (base s) = [66; 55] /\ gen s = 2%nat.
 Proof. eexists. split; [vm_compute; reflexivity|repeat split; reflexivity]. Qed.
+Print Assumptions C11_example_fresh.
 
 (* nothing above depends on the salt VALUES being distinct: [ex_same_salt] - two requests rejected by two
    bad_server_salt messages naming the same salt (the second one arrives when that salt is already in force),
@@ -138,3 +140,4 @@ Example C11_example_same_salt : exists s, run2 (init2 cfg_resumed) ex_same_salt 
   rets (base s) = [(1%nat, 1%nat, 52, RetVal KObj 8); (0%nat, 1%nat, 60, RetVal KObj 7)] /\
   store (base s) = [777; 778; 777; 777] /\ retries (elog (base s)) = [56; 48; 44; 40].
 Proof. eexists. split; [vm_compute; reflexivity|repeat split; reflexivity]. Qed.
+Print Assumptions C11_example_same_salt.
